@@ -24,7 +24,7 @@ META = {
     "assumptions": ["real operands (the interface recursions do not conjugate the test core)",
                     "generic sizes: rank families at different positions / of different trains are independent",
                     "the band-diagonal products (shifted diagonals re-padded by their offset) are not contraction networks and are not decided"],
-    "floors": {"E5-CHAIN": 18, "IFACE-TYPE": 44, "DEF-ATTR": 20, "E3-PARAM": 3},
+    "floors": {"ZERO-NORM": 6, "ARNOLDI-SEED": 1, "E5-CHAIN": 18, "IFACE-TYPE": 44, "DEF-ATTR": 20, "E3-PARAM": 3},
 }
 ANCHORS = ["solvers.amen_solve", "solvers._amen_solve_python", "solvers._local_product", "solvers._LinearOp.matvec", "solvers._LinearOp.apply_prec",
            "solvers._compute_phi_fwd_A", "solvers._compute_phi_bck_A", "solvers._compute_phi_fwd_rhs", "solvers._compute_phi_bck_rhs",
@@ -44,6 +44,9 @@ def check(model: Model, tier: str):
         effs = [e for e in eng.summary(fo).effects if e.param == p]
         obs.append(Ob("E3-PARAM", f"{fn}:E3-PARAM:{p}", VIOLATED if effs else OK, effs[0].where if effs else model.where(fo), p,
                       f"operand `{p}` is written: {effs[0].construct} in {effs[0].func}" if effs else "operand not written"))
+    from ..normguard import rule_zero_norm, rule_arnoldi_seed
+    obs += rule_zero_norm(model, "solvers._amen_solve_python")
+    obs += rule_arnoldi_seed(model)
     fs = [model.func(a) for a in ANCHORS]
     exc = {("solvers._amen_solve_python", "swp"): "read only in the verbose report after a zero-sweep run (nswp = 0)",
            ("solvers._amen_solve_python", "time_total"): "verbose timing only", ("solvers._amen_solve_python", "tme_sweep"): "verbose timing only",
